@@ -212,7 +212,7 @@ fn random_job(ctx: &Ctx, job: usize, iters: u64) -> Stats {
     let mut st = Stats::new();
     let mut rng = Rng::stream(ctx.seed, "C08.random", job as u64);
     for it in 0..iters {
-        let pool: &[&str] = if it % 4 == 0 { &gen::FANCY_NAMES } else if it % 8 == 1 { &gen::MARK_NAMES } else { &gen::PLAIN_NAMES };
+        let pool: &[&str] = if it % 4 == 0 { &gen::FANCY_NAMES } else if it % 8 == 1 { gen::rare_pool(it / 16 as u64) } else { &gen::PLAIN_NAMES };
         let mut cfg = GenCfg::simple(&pool[..4], 5);
         cfg.allow_ref = true;
         cfg.binder_weight = 22;
@@ -260,6 +260,77 @@ fn random_job(ctx: &Ctx, job: usize, iters: u64) -> Stats {
         let n = 1 + rng.usize(10);
         let soup: Vec<String> = (0..n).map(|_| rng.pick_str(&gen::TOKEN_SPELLINGS).to_string()).collect();
         check_text(&mut st, &soup.join(" "), true, "soup");
+    }
+    st
+}
+
+fn judge_undecodable(st: &mut Stats, bytes: &[u8]) {
+    st.evals += 1;
+    st.bump("inputs_that_are_not_valid_utf8");
+    let lossy = String::from_utf8_lossy(bytes).to_string();
+    let lossy_tree = refsyn::parse_text(&lossy).ok();
+    let shown = lossy.replace('\u{fffd}', "<?>");
+    let case = || json!({"kind": "invalid-utf8", "bytes": bytes.iter().map(|b| format!("{:02x}", b)).collect::<String>()});
+    match guarded(|| ParsedFormula::new(&mut BufReader::new(bytes), None)) {
+        Err(c) => st.violate("c08.panic", format!("C08:parser-{}", c.signature()), format!("input {:?} (<?> = undecodable bytes): {:?}", shown, c), case()),
+        Ok(Err(_)) => {
+            st.bump("invalid_utf8_rejected");
+            st.nt.insert(mix(util::hash_str(&lossy), 0xbad8));
+        }
+        Ok(Ok(pf)) => {
+            let got = ast_of_engine(&pf.bdd);
+            if Some(&got) == lossy_tree.as_ref() {
+                st.bump("invalid_utf8_read_lossily");
+            } else {
+                st.violate("c08.accepts-non-sentence", format!("C08:undecodable-input-accepted:{}", tree_sig(&got)), format!("input {:?} (<?> = bytes that are not UTF-8) is accepted as {:?} — neither rejected nor the tree of the text with the bytes replaced ({:?})", shown, got, lossy_tree), case());
+            }
+        }
+    }
+}
+
+/// Inputs that are NOT valid UTF-8 — a stray 0xFF, a Latin-1 letter inside a comment, a truncated
+/// or surrogate sequence — on the first line, on a later line after a complete formula, or in the
+/// middle of a line. Such an input is rejected; a reader that prefers to decode it lossily must
+/// then produce the tree of the lossily decoded text. Anything else (the tree of a prefix, say) is
+/// "accepted with some other meaning".
+fn invalid_utf8_job(ctx: &Ctx, job: usize, iters: u64) -> Stats {
+    let mut st = Stats::new();
+    let mut rng = Rng::stream(ctx.seed, "C08.invalid-utf8", job as u64);
+    let bad: [&[u8]; 7] = [b"\xff", b"\xfe\xff z", b"\"caf\xe9\"", b"\xc3", b"\xed\xa0\x80", b"\xf8\x88\x80\x80\x80", b"\"\xe9\xe8\" q"];
+    for it in 0..iters {
+        let cfg = GenCfg::simple(&gen::PLAIN_NAMES[..4], 2);
+        let a = gen::render(&gen::gen_ast(&mut rng, &cfg), &mut rng, Style::Plain);
+        let b = gen::render(&gen::gen_ast(&mut rng, &cfg), &mut rng, Style::Plain);
+        let op = rng.pick_str(&["&", "|", "=>", "^", "<=>"]);
+        let x = bad[rng.usize(bad.len())];
+        let mut bytes: Vec<u8> = Vec::new();
+        match it % 4 {
+            0 => {
+                // a complete formula, then a line with the bad bytes, then the rest of the sentence
+                bytes.extend_from_slice(a.as_bytes());
+                bytes.push(b'\n');
+                bytes.extend_from_slice(x);
+                bytes.extend_from_slice(format!("\n{} {}\n", op, b).as_bytes());
+            }
+            1 => {
+                bytes.extend_from_slice(format!("({}) {}\n({})\n", a, op, b).as_bytes());
+                bytes.extend_from_slice(x);
+                bytes.push(b'\n');
+            }
+            2 => {
+                bytes.extend_from_slice(x);
+                bytes.extend_from_slice(format!("\n{}\n", a).as_bytes());
+            }
+            _ => {
+                bytes.extend_from_slice(format!("{} ", a).as_bytes());
+                bytes.extend_from_slice(x);
+                bytes.extend_from_slice(format!(" {} {}", op, b).as_bytes());
+            }
+        }
+        if std::str::from_utf8(&bytes).is_ok() {
+            continue;
+        }
+        judge_undecodable(&mut st, &bytes);
     }
     st
 }
@@ -376,7 +447,7 @@ fn cli_job(ctx: &Ctx, job: usize, iters: u64) -> Stats {
         let text: String = if it < 2 {
             CLI_TEXTS[(job * 2 + it as usize) % CLI_TEXTS.len()].to_string()
         } else {
-            let pool: &[&str] = if it % 4 == 0 { &gen::FANCY_NAMES } else if it % 4 == 1 { &gen::MARK_NAMES } else { &gen::PLAIN_NAMES };
+            let pool: &[&str] = if it % 4 == 0 { &gen::FANCY_NAMES } else if it % 4 == 1 { gen::rare_pool(it / 16 as u64) } else { &gen::PLAIN_NAMES };
             let mut cfg = GenCfg::simple(&pool[..3], 3);
             cfg.binder_weight = 22;
             let ast = gen::gen_ast(&mut rng, &cfg);
@@ -449,6 +520,8 @@ pub fn run(ctx: &Ctx) -> (Stats, Spec) {
     for t in CURATED {
         check_text(&mut st, t, true, "curated");
     }
+    let parts = util::par_jobs(16, |job| invalid_utf8_job(ctx, job, ctx.tier.pick(300u64, 20_000u64)));
+    st.merge(crate::report::merge_all(parts));
     let parts = util::par_jobs(16, |job| alignment_job(job, 16));
     st.merge(crate::report::merge_all(parts));
     // (d) the tool as a reader of texts
@@ -459,7 +532,7 @@ pub fn run(ctx: &Ctx) -> (Stats, Spec) {
         check_text(&mut st, t, true, "negation-and-edge-cases");
     }
     let spec = Spec {
-        rule: "exhaustive token sequences (full 33-kind alphabet to length 4 [quick] / 5 [thorough]; reduced alphabet at length 5 / 6), exhaustive character strings over 16 characters to length 5 / 6, random well-formed texts with every alias spelling and their token-level mutations (delete / duplicate / swap / replace / insert / drop a bracket / truncate), splices, soups, a curated Unicode set, and texts of 8-60 KiB (padding by comments / whitespace / separator lines before, inside and after a formula), and texts of 4-192 KiB in which a 2-, 3- or 4-byte character of a name lies across a block boundary (4 KiB .. 192 KiB); plus the TOOL as reader: random, mutated and quote-/prime-/bracket-wrapped texts given to rsbdd by -e, --evaluate=, file or standard input, its -p parse-tree export read back and compared with the reference tree (non-sentences must make it exit non-zero). distinct = text; non-trivial = >= 3 tokens and either accepted, or rejected by the reference only after >= 2 tokens were consumed.".into(),
+        rule: "exhaustive token sequences (full 33-kind alphabet to length 4 [quick] / 5 [thorough]; reduced alphabet at length 5 / 6), exhaustive character strings over 16 characters to length 5 / 6, random well-formed texts with every alias spelling and their token-level mutations (delete / duplicate / swap / replace / insert / drop a bracket / truncate), splices, soups, a curated Unicode set, and texts of 8-60 KiB (padding by comments / whitespace / separator lines before, inside and after a formula), and texts of 4-192 KiB in which a 2-, 3- or 4-byte character of a name lies across a block boundary (4 KiB .. 192 KiB); inputs that are not valid UTF-8 (bad bytes on the first line, on a later line after a complete formula, inside a line: rejected, or read as the lossily decoded text); plus the TOOL as reader: random, mutated and quote-/prime-/bracket-wrapped texts given to rsbdd by -e, --evaluate=, file or standard input, its -p parse-tree export read back and compared with the reference tree (non-sentences must make it exit non-zero). distinct = text; non-trivial = >= 3 tokens and either accepted, or rejected by the reference only after >= 2 tokens were consumed.".into(),
         assumptions: vec![
             "the reference grammar is DESIGN.md 2.1/2.2 (written from README + property statement); `\\w` / `\\d` are the regex crate's Unicode classes".into(),
             "a digit run that is not an ASCII number fitting the machine integer must be rejected".into(),
@@ -470,6 +543,7 @@ pub fn run(ctx: &Ctx) -> (Stats, Spec) {
             ("token_lists_compared".into(), 100_000, "token lists hardly compared".into()),
             ("mutated_texts".into(), 10_000, "mutations not exercised".into()),
             ("large_texts".into(), 50, "texts beyond 8 KiB not exercised".into()),
+            ("inputs_that_are_not_valid_utf8".into(), 1_000, "undecodable inputs not exercised".into()),
             ("texts_with_a_character_across_a_block_boundary".into(), 100, "multi-byte characters across block boundaries not exercised".into()),
             ("cli_accepted_same_tree".into(), 150, "the tool's reading of texts hardly compared".into()),
             ("cli_rejected_by_both".into(), 100, "the tool's refusal of non-sentences hardly exercised".into()),
@@ -479,6 +553,12 @@ pub fn run(ctx: &Ctx) -> (Stats, Spec) {
 }
 
 pub fn replay(_ctx: &Ctx, _monitor: &str, case: &Value, st: &mut Stats) {
+    if case.get("kind").and_then(|k| k.as_str()) == Some("invalid-utf8") {
+        let hex = case.get("bytes").and_then(|b| b.as_str()).unwrap_or("");
+        let bytes: Vec<u8> = (0..hex.len() / 2).filter_map(|i| u8::from_str_radix(&hex[2 * i..2 * i + 2], 16).ok()).collect();
+        judge_undecodable(st, &bytes);
+        return;
+    }
     if let Some(t) = case.get("text").and_then(|t| t.as_str()) {
         if case.get("kind").and_then(|k| k.as_str()) == Some("cli") {
             cli_one(_ctx, st, t, case.get("channel").and_then(|c| c.as_u64()).unwrap_or(1) as u8, "replay");
